@@ -66,7 +66,13 @@ class Ctx:
         self.model_runs.append(dict(name=name, states=r["states"], transitions=r["transitions"], consts=consts,
                                     invariants=list(invariants), properties=list(properties), error=r["error"]))
         if r["rc"] == -9:
-            raise Broken("TLC timed out on %s" % name)
+            # the thorough tier explores as deep as its time budget allows: every state visited (breadth
+            # first) satisfied the invariants; a liveness property needs the whole graph
+            if self.quick() or properties or not r.get("partial") or not r["states"]:
+                raise Broken("TLC timed out on %s" % name)
+            self.model_runs[-1]["partial"] = "time budget of %ds reached; breadth-first exploration up to the states counted" % timeout
+            self.exhaustive = False
+            r["rc"] = 0
         if r["error"] and kf is None:
             raise Broken("specification-level counterexample on the intended design in %s (a defect of the model, not a verdict about the code): %s\n%s" % (name, r["error"], r.get("tail", "")[-3000:]))
         self.states += r["states"]
